@@ -67,10 +67,17 @@ structure InpKind where
   compressed : Bool
   deriving DecidableEq, Repr
 
+/-- bytes counted as witness data of an unsigned input -/
 def scrSize (i : InpKind) : Nat :=
   match i.multisig with
-  | none => 107 + (if i.compressed then 0 else 33) + (if i.wt = .p2shSegwit then 24 else 0)
+  | none => 107 + (if i.compressed then 0 else 33)
   | some (n, m) => 9 + n * 34 + m * 72 + (if i.wt = .p2shSegwit then 17 * m else 0)
+
+/-- bytes of the scriptSig of a nested single-key input (the push of `0014<key hash>`): counted at full weight since the repair of F98 -/
+def nestedScriptSig (i : InpKind) : Nat :=
+  match i.multisig with
+  | none => if i.wt = .p2shSegwit then 24 else 0
+  | some _ => 0
 
 /-- length of `varstr(lock_script)` for a script of `n` bytes -/
 def varstrLen (n : Nat) : Nat := n + (if n < 253 then 1 else if n ≤ 0xffff then 3 else 5)
@@ -79,7 +86,7 @@ def varstrLen (n : Nat) : Nat := n + (if n < 253 then 1 else if n ≤ 0xffff the
 def estimateSize (txwt : WT) (ins : List InpKind) (outLens : List Nat) (nChange : Nat) : Nat × Nat :=
   let base := 12 + (if txwt = .legacy then 0 else 2)
   let (e1, w1) := if ins.isEmpty then (base + 125, 2 + 72) else (base, 2)
-  let e2 := e1 + (ins.map fun i => 40 + (if i.wt = .legacy then 0 else 1) + scrSize i).sum
+  let e2 := e1 + (ins.map fun i => 40 + (if i.wt = .legacy then 0 else 1) + scrSize i + nestedScriptSig i).sum
   let w2 := w1 + (ins.map scrSize).sum
   let e3 := e2 + (outLens.map fun n => 8 + varstrLen n).sum
   let isMs := match ins.head? with | some i => i.multisig.isSome | none => false
